@@ -24,6 +24,8 @@ import RapidProofs.ContractsGen
 import RapidProofs.ContractsFloat
 import RapidProofs.ContractsGen2
 import RapidProofs.TranslatedEq
+import RapidProofs.TranslatedProgEq
+import RapidModel.Generated.Thresholds
 import RapidModel.Minimize
 
 namespace Rapid.C03
@@ -194,6 +196,52 @@ example : floatRangeOK fmt64 0xBFF8000000000000 0x7FF0000000000000 = true ∧
     floatRangeOK fmt32 0x80000000 0x3F800000 = true ∧
     floatRangeOK fmt64 0x7FF8000000000001 0x7FF0000000000000 = false ∧
     floatRangeOK fmt64 0x3FF0000000000000 0 = false := by decide
+
+/-! ### the integer generators of utils.go, translated on every run, are the model
+
+  The functions that work on the bit stream (`genUintNNoReject`, `genUintNUnbiased`, `genUintNBiased`,
+  `genUintN`, `genUintRange`, `genIntRange`, `genIndex`, `flipBiasedCoin`, `genGeom`, `genFloat01`) are
+  translated statement by statement into continuation-passing style over `Prog`
+  (`extract/translate_prog.go`).  For every bit source and `*T` state the translated function and the
+  hand-written model have the same run, given the floating-point facts `FloatFacts` (the thresholds
+  measured on the real functions on every run); so the range contracts above hold of the source. -/
+
+theorem source_genUintRange (fe : Go.FEval) (ft : FT) (H : FloatFacts fe ft) (min max : UInt64) (bias : Bool) (fuel : Nat)
+    (k : UInt64 → Bool → Bool → Prog) (src : Src) (ts : TS) :
+    (Translated.genUintRange fe min max bias fuel k).run src ts = (uintRange ft min max bias fuel k).run src ts :=
+  tr_genUintRange fe ft H min max bias fuel k k (fun _ _ _ => RunEq.refl _) src ts
+
+theorem source_genIntRange (fe : Go.FEval) (ft : FT) (H : FloatFacts fe ft) (min max : Int64) (fuel : Nat)
+    (k : Int64 → Bool → Bool → Prog) (src : Src) (ts : TS) :
+    (Translated.genIntRange fe min max true fuel k).run src ts = (intRange ft min max fuel k).run src ts :=
+  tr_genIntRange fe ft H min max fuel k k (fun _ _ _ => RunEq.refl _) src ts
+
+theorem source_genIndex (fe : Go.FEval) (ft : FT) (H : FloatFacts fe ft) (n : Nat) (hn : n < 2 ^ 62) (bias : Bool) (fuel : Nat)
+    (k : Nat → Prog) (src : Src) (ts : TS) :
+    (Translated.genIndex fe (Int64.ofNat n) bias fuel (fun i => k i.toUInt64.toNat)).run src ts = (index ft n bias fuel k).run src ts :=
+  tr_genIndex fe ft H n hn bias fuel _ k (fun u => by
+    have : u.toInt64.toUInt64 = u := by apply UInt64.toBitVec_inj.mp; simp [UInt64.toInt64, Int64.toUInt64]
+    rw [this]; exact RunEq.refl _) src ts
+
+theorem source_genUintNNoReject (fe : Go.FEval) (max : UInt64) (fuel : Nat) (k : UInt64 → Prog) (src : Src) (ts : TS) :
+    (Translated.genUintNNoReject fe max fuel k).run src ts = (uintNoReject max k).run src ts :=
+  tr_genUintNNoReject fe max fuel k k (fun _ => RunEq.refl _) src ts
+
+/-- the range contract, for the source: `genIntRange(s, min, max, true)` hands on a value of `[min, max]` -/
+theorem source_genIntRange_in_range (fe : Go.FEval) (ft : FT) (H : FloatFacts fe ft) (min max : Int64) (fuel : Nat) (h : min ≤ max) :
+    Yields (fun (k : Int64 × Bool × Bool → Prog) => Translated.genIntRange fe min max true fuel (fun i l r => k (i, l, r)))
+      (fun x => min ≤ x.1 ∧ x.1 ≤ max) :=
+  Yields.of_runEq (fun k => tr_genIntRange fe ft H min max fuel _ _ (fun _ _ _ => RunEq.refl _)) (intRange_mem ft min max fuel h)
+
+theorem source_genUintRange_in_range (fe : Go.FEval) (ft : FT) (H : FloatFacts fe ft) (min max : UInt64) (bias : Bool) (fuel : Nat)
+    (h : min ≤ max) :
+    Yields (fun (k : UInt64 × Bool × Bool → Prog) => Translated.genUintRange fe min max bias fuel (fun u l r => k (u, l, r)))
+      (fun x => min ≤ x.1 ∧ x.1 ≤ max) :=
+  Yields.of_runEq (fun k => tr_genUintRange fe ft H min max bias fuel _ _ (fun _ _ _ => RunEq.refl _)) (uintRange_mem ft min max bias fuel h)
+
+/-- `FloatFacts` is not an empty hypothesis: an evaluator that answers from the measured table meets it -/
+theorem float_facts_satisfiable : FloatFacts (feOf Rapid.Generated.ft) Rapid.Generated.ft :=
+  floatFacts_feOf _ (by decide +kernel)
 
 /-! ### facts re-read from /repo's source on every run -/
 
